@@ -401,6 +401,10 @@ def snake_case(word: str) -> str:
     for t in core.split("_"):
         if not t:
             continue
+        if _snakecase_re_upper_or_digits.fullmatch(t):
+            # ALL-UPPER token (e.g. "50HZ" of "RATE_50HZ"): nothing to split.
+            parts.append(t)
+            continue
         # camel splits (two-pass)
         t = _snakecase_re_camel_b1.sub(r"\1_\2", t)
         t = _snakecase_re_camel_b2.sub(r"\1_\2", t)
